@@ -1048,7 +1048,7 @@ Section Tco.
           | (Sig (STail vs), s2) =>
             match zip_params ps rest vs [] with
             | Some binds' => tloop n' f binds' s2
-            | None => (Sig (SErr EUnspec), s2)     (* excluded by arity_fits *)
+            | None => (Sig (SErr EOther), s2)      (* unreachable (arity_fits); the outcome of the ordinary call *)
             end
           | r => r
           end
